@@ -129,8 +129,8 @@ MC.update({
     "C06": {"quick": [_mc("rcust")], "thorough": [_mc("rcust"), _mc("rcu2"), _mc("rcu2_nf0", simulate=40000, timeout=2400), _mc("rculd", simulate=40000, timeout=2400)]},
     "C08": {"quick": [_mc("rw1"), _mc("rw1_nf0"), _mc("rw1h"), _mc("rw1h_nf0")],
             "thorough": [_mc("rw1"), _mc("rw1_nf0"), _mc("rw1_nf2"), _mc("rw1h"), _mc("rw1h_nf0"), _mc("2r1w"), _mc("2r1w_nf0")]},
-    "C09": {"quick": [_mc("solo_rw1"), _mc("solo_rw1_nf0"), _mc("live_rw1", workers=2), _mc("live_rw1_nf0", workers=2), _mc("live_bug_wait", "Termination", workers=2)],
-            "thorough": [_mc("solo_rw1"), _mc("solo_rw1_nf0"), _mc("solo_rcust"), _mc("live_rw1", workers=2), _mc("live_rw1_nf0", workers=2), _mc("live_lfsw", workers=2),
+    "C09": {"quick": [_mc("solo_rw1"), _mc("solo_rw1_nf0"), _mc("solo_churn"), _mc("bug_solo_cooldown", "SoloBound"), _mc("live_rw1", workers=2), _mc("live_rw1_nf0", workers=2), _mc("live_bug_wait", "Termination", workers=2)],
+            "thorough": [_mc("solo_rw1"), _mc("solo_rw1_nf0"), _mc("solo_churn"), _mc("bug_solo_cooldown", "SoloBound"), _mc("solo_rcust", timeout=3000), _mc("live_rw1", workers=2), _mc("live_rw1_nf0", workers=2), _mc("live_lfsw", workers=2),
                          _mc("live_churn", workers=2), _mc("live_2c_nf0", workers=2), _mc("live_rcust", workers=4), _mc("live_bug_wait", "Termination", workers=2)]},
     "C10": {"quick": [_mc("rw1h"), _mc("rw1h_nf0"), _mc("churn")],
             "thorough": [_mc("rw1h"), _mc("rw1h_nf0"), _mc("churn"), _mc("churn2")]},
@@ -162,7 +162,7 @@ MANIFEST_TEXT = {
     "C06": {"text": "RcuOK: the installed value was computed from exactly the displaced one (parent tag), discarded attempts never visible; rcu x rcu / rcu x store under TLC, all 2/3-switch schedules incl. A-B-A on the real crate."},
     "C07": {"level_note": "interleavings only: defects that need a stale (non-latest) read are not visible to this monitor; VPtr follows Arc's count protocol", "text": "Happens-before monitor (spec/Mem.tla: vector clocks, release sequences, fences, Arc count protocol) over the atomic accesses the real code performed with the orderings it requested: every dereference needs the initialisation of the value in its past, every destruction needs all accesses in its past. Schedules: victim reader x atomic writers at every pair of reader steps with address reuse (found F2), random families, directed needles. The ordering table is extracted from the traces and drives the weak-memory models WeakFast.tla / WeakHelp.tla (view-based, stale reads, ISO SeqCst; found F7 and F8).", "technique": "TLA+ happens-before specification (Mem.tla) used as a TLC trace monitor over real executions"},
     "C08": {"text": "LoadSteps invariant of ArcSwapImpl under all interleavings (TLC) and the step bound clause of ArcSwapAbs on real executions under an adversary that completes k writes after every reader step (150-600 writes available, 0-12 guards held, both strategies)."},
-    "C09": {"text": "SoloProgress (ENABLED Step(t) whenever everybody else is frozen, from every reachable state) under TLC, plus the temporal property Termination (every operation completes under weak fairness; a seeded model bug must violate it); on the real crate a randomly chosen thread is run alone from a random point and must finish its operation within SoloStepBound own steps; non-terminating executions are violations."},
+    "C09": {"text": "SoloProgress (ENABLED Step(t) whenever everybody else is frozen, from every reachable state) under TLC, SoloBound (the solo thread finishes its operation within 120 own steps - a loop waiting for somebody else's progress keeps a step enabled; seeded model bug 'cooldown_wait' must violate it), plus the temporal property Termination (every operation completes under weak fairness; a seeded model bug must violate it); on the real crate a randomly chosen thread is run alone from a random point and must finish its operation within SoloStepBound own steps; non-terminating executions are violations."},
     "C10": {"text": "GuardStable/NoUAF clauses for guards: > 8 guards, guards dropped on other threads, creating thread exited, node re-claimed, container dropped first; TLC configurations rw1h, churn, churn2; real executions of the guards/churn/drop families and systematic schedules."},
     "C11": {"text": "Node life-cycle in ArcSwapImpl (NodeExclusive, NodeUsedOwned, NodeBound) under TLC; on real executions the node-protocol monitor of Mem.tla (transaction state touched only by the owner or a registered writer; no hand-over while a pre-cool-down writer is inside; single owner), the bound #nodes <= 2 x peak threads, operations from thread-local destructors, systematic re-claim-under-writer schedules."},
     "C12": {"text": "Two containers under TLC (2c configurations); on real executions a load that returns a value only ever stored in another container is attributed to C12 (foreign-value clause), multi/solo2c families, re-claim schedules across containers."},
